@@ -201,7 +201,8 @@ func (ex *Exec) freshVal(st *State, k *Kind, hint string) Val {
 		switch k.Elem.K {
 		case "slice":
 			if k.Elem.Elem.K == "slice" {
-				panic(unsupported("fresh 3-level symbolic slice %s (use a shape clause)", hint))
+				// placeholder: must be given explicit dimensions by a shape clause before it is used
+				return &SliceV{Elem: k.Elem, Len: Fresh(hint+".len", SInt), Tag: newTag()}
 			}
 			s.Arr = Fresh(hint, SArr(SInt, SArr(SInt, k.Elem.Elem.sortOf())))
 			s.Lens = Fresh(hint+".lens", SArrInt)
@@ -814,6 +815,12 @@ func substVal(v Val, m map[*Term]*Term) Val {
 			r.FieldArr = nf
 			return &r
 		}
+		if x.Arr == nil {
+			if r.Len == x.Len {
+				return x
+			}
+			return &r
+		}
 		r.Arr = Subst(x.Arr, m)
 		if x.Lens != nil {
 			r.Lens = Subst(x.Lens, m)
@@ -908,6 +915,14 @@ func (ex *Exec) checkPost(f *State, n int) {
 			continue
 		}
 		goal := ce.evalBool(e.Expr)
+		parts := splitGoal(goal)
+		if len(parts) > 1 {
+			for pi, pg := range parts {
+				ex.oblige(f, "post", fmt.Sprintf("post#%d.%d@ret%d", k, pi+1, n), pg, nil)
+				ex.obls[len(ex.obls)-1].Note = e.Text
+			}
+			continue
+		}
 		ex.oblige(f, "post", fmt.Sprintf("post#%d@ret%d", k, n), goal, nil)
 		ex.obls[len(ex.obls)-1].Note = e.Text
 	}
@@ -2248,4 +2263,19 @@ func (ex *Exec) traceMatters() bool {
 		}
 	}
 	return false
+}
+
+// splitGoal splits a large conjunctive goal (possibly under one implication) into separate obligations.
+func splitGoal(g *Term) []*Term {
+	if g.Op == "and" && len(g.Args) > 4 {
+		return g.Args
+	}
+	if g.Op == "=>" && len(g.Args) == 2 && g.Args[1].Op == "and" && len(g.Args[1].Args) > 4 {
+		var out []*Term
+		for _, c := range g.Args[1].Args {
+			out = append(out, Imp(g.Args[0], c))
+		}
+		return out
+	}
+	return []*Term{g}
 }
